@@ -126,7 +126,7 @@ func (g *fnGen) execBlock(b *ssa.BasicBlock, st *state) {
 				break
 			}
 			tag := g.R.tagOf(x.X.Type())
-			g.vals[x] = g.define(x.Name(), "Iface", S("mk-iface", fmt.Sprint(tag), g.R.box(g.R.sortOf(x.X.Type()), xv)))
+			g.vals[x] = g.define(x.Name(), "Iface", S("mk-iface", fmt.Sprint(tag), g.R.boxT(x.X.Type(), xv)))
 		case *ssa.TypeAssert:
 			g.execTypeAssert(st, x)
 		case *ssa.Extract:
@@ -444,7 +444,7 @@ func (g *fnGen) execTypeAssert(st *state, x *ssa.TypeAssert) {
 		v = xv
 	} else {
 		ok = S("=", tag, fmt.Sprint(g.R.tagOf(x.AssertedType)))
-		v = g.R.unbox(g.R.sortOf(x.AssertedType), S("i-val", xv))
+		v = g.R.unboxT(x.AssertedType, S("i-val", xv))
 	}
 	okc := g.define("taok", "Bool", ok)
 	if x.CommaOk {
